@@ -38,6 +38,7 @@ structure St where
   lastArc : Bool := false
   vo : Bool := false
   absPhi : Bool := false
+  alias : Char := 'n'
 
 def kv? (key : String) (tok : String) : Option String :=
   if tok.startsWith (key ++ "=") then some (tok.drop (key.length + 1)).toString else none
@@ -175,6 +176,13 @@ def stepRS (st : St) (ts : List String) : St × String :=
           (fun o => match o with | some P => showPose P | none => "nopath")))
       | none => (st, "bad-op")
     | _, _, _ => (st, "bad-op")
+  | ["rsipath", a, b, c, d, e, f, t] =>
+    match pose? [a, b, c], pose? [d, e, f], parseFloatBits? t with
+    | some s1, some s2, some t =>
+      match OmplModel.RS.reedsSheppStates st.rho s1 s2 with
+      | some p => (st, showPose (OmplModel.RS.rsInterpPath st.rho s1 p t))
+      | none => (st, "nopath")
+    | _, _, _ => (st, "bad-op")
   | ["rsend", a, b, c, d, e, f] =>
     match pose? [a, b, c], pose? [d, e, f] with
     | some s1, some s2 =>
@@ -250,6 +258,13 @@ def stepD (st : St) (ts : List String) : St × String :=
       | some ts =>
         (st, " | ".intercalate ((interpCached st.rho st.sym s1 s2 none ts).map (fun o => match o with | some P => showPose P | none => "nopath")))
       | none => (st, "bad-op")
+    | _, _, _ => (st, "bad-op")
+  | ["ipath", a, b, c, d, e, f, t] =>
+    match pose? [a, b, c], pose? [d, e, f], parseFloatBits? t with
+    | some s1, some s2, some t =>
+      match choosePath st.rho st.sym s1 s2 with
+      | .path P => (st, showPose (interpPath st.rho s1 P t))
+      | _ => (st, "nopath")
     | _, _, _ => (st, "bad-op")
   | ["endp", a, b, c, d, e, f] =>
     match pose? [a, b, c], pose? [d, e, f] with
@@ -532,7 +547,25 @@ def stepVO (st : St) (ts : List String) : St × String :=
     | none => (st, "bad-op")
   | _ => (st, "bad-op")
 
-def step (st : St) (ts : List String) : St × String :=
+/-- ops whose output state may alias `from` (`op@f`) or `to` (`op@t`), see harness/dubins.cpp -/
+def aliasable : List String :=
+  ["interp", "icache", "endp", "ipath", "rsinterp", "rscache", "rsend", "rsipath", "owinterp", "owinterpr", "vinterp", "vointerp", "vointerpr"]
+
+def stepA (st : St) (ts : List String) : St × String :=
   if st.vo then stepVO st ts else if st.vana then stepVana st ts else if st.owen then stepOwen st ts else if st.dint then stepDint st ts else if st.rs then stepRS st ts else stepD st ts
+
+/-- splits the alias suffix off the op token (`interp@f`): the model is functional, so the aliasing mode selects the
+store-semantics variant of the op (`Model/CarAlias.lean`), whose result is proved equal to the pure function -/
+def step (st : St) (ts : List String) : St × String :=
+  match ts with
+  | op :: rest =>
+    match op.splitOn "@" with
+    | [_] => let (_, o) := stepA { st with alias := 'n' } ts; (st, o)
+    | [b, a] =>
+      if (a == "f" || a == "t") && aliasable.contains b then
+        let (_, o) := stepA { st with alias := if a == "f" then 'f' else 't' } (b :: rest); (st, o)
+      else (st, "bad-op")
+    | _ => (st, "bad-op")
+  | [] => stepA st ts
 
 end OmplModel.Driver.DubinsDrv
